@@ -166,6 +166,10 @@ def call_value(w, e, val, args, kwargs, s):
             return tables.apply_ext(w, e, q[4:], args, kwargs, s)
         if q.startswith("builtin:"):
             return tables.apply_builtin(w, e, q[8:], args, kwargs, s)
+    if val[0] == "attr" and isinstance(val[1], tuple):
+        # a bound method taken as a value earlier (sign = key.sign; sign(x)): call it on its receiver
+        if val[2] in tables.METHODS:
+            return call_on_value(w, e, val[1], val[2], args, kwargs, s)
     # a call through a value the analysis cannot resolve (args.func(args), table of functions)
     t = CallT("dynamic", [val] + list(args), kwargs)
     outs = []
@@ -233,11 +237,28 @@ def apply_repo(w, e, fi, clsbind, args, kwargs, s):
         outs.append((s1, "raise", Exc("TypeError", [site], (), "implicit", "call does not match signature: " + order)))
         return outs
     argterms = tuple(mp[n] for n in order)
+    # a callee that receives a function / class object (a higher-order helper such as
+    # _passes(check, value)) is analysed specialised on that argument, so that the call through
+    # the parameter resolves
+    funargs = tuple(sorted((n, mp[n]) for n in order if _is_callable_term(mp[n])))
+    if funargs:
+        callee = callee + "<" + ",".join("%s=%s" % (n, t[1]) for n, t in funargs) + ">"
     callterm = CallT(callee, argterms)
     w.eng.callee_index[callee] = (fi, clsbind_eff, tuple(order))
-    mode = "inline" if (fi.qualname in w.inline or callee in w.inline) else "grouped"
-    sm = w.eng.summary(fi, clsbind_eff, w.inline if mode == "inline" else frozenset())
+    mode = "inline" if (fi.qualname in w.inline or callee in w.inline or (w.inline and fi.qualname.split(".")[-1].startswith("_") and fi.mod.short == w.fi.mod.short and "@private" in w.inline)) else "grouped"
+    sm = w.eng.summary(fi, clsbind_eff, w.inline if mode == "inline" else frozenset(), funargs)
     pmap = {P(n): mp[n] for n in order}
+    if sm is None:
+        # recursive call (see Engine.summary): opaque
+        s1 = s.copy()
+        s1.ev("call", site, callee, argterms, (), ("raise", "Exception"))
+        s1.ev("unknown-call", site, callee)
+        outs.append((s1, "raise", Exc("Exception", [site], [("notok", callterm)], "unknown-callable", "recursive call of %s (not summarised)" % fi.qualname)))
+        s2 = s.copy()
+        s2.ev("unknown-call", site, callee)
+        s2.ev("call", site, callee, argterms, (), ("ok", callterm))
+        outs.append((s2, "val", callterm))
+        return outs
 
     # already decided on this path (pure re-evaluation)
     for cv in (True, False):
@@ -317,6 +338,10 @@ def apply_repo(w, e, fi, clsbind, args, kwargs, s):
     return outs
 
 
+def _is_callable_term(t):
+    return isinstance(t, tuple) and len(t) == 2 and ((t[0] == "global" and t[1].startswith(("func:", "class:"))) or t[0] == "closure")
+
+
 COND_KINDS = {
     "ret",
     "has",
@@ -345,10 +370,14 @@ COND_KINDS = {
 }
 
 
-def build_summary(eng, fi, clsbind, inline=frozenset()):
+def build_summary(eng, fi, clsbind, inline=frozenset(), funargs=()):
     from .walker import Summary, Walker
 
+    # private helpers of the function's own module are always inlined path by path: a public
+    # function and the helpers it was split into are analysed as one unit
+    inline = frozenset(inline) | (eng.private_helpers(fi.mod.short) - {fi.qualname})
     w = Walker(eng, fi, clsbind, inline)
+    w.funargs = dict(funargs)
     paths = w.run()
     sm = Summary(fi, clsbind)
     sm.paths = paths
